@@ -190,6 +190,8 @@ func C07(c *core.Ctx) {
 		// a subscription to everything, and topics with an empty level where a '#' sits
 		// (a trailing '#' matches them like any other level)
 		sub("S", 9, "#", 0), pub("P", "/x", 0, 0, "lead-empty"), pub("P", "a//x", 0, 0, "inner-empty"),
+		// a held filter named again with a QoS that is none: refused (0x80), what is held stays
+		{Kind: "sub", Client: "S", ID: 10, Filters: []string{"a", "c"}, QoSs: []byte{3, 0}},
 	}
 	depth := 4
 	if c.Thorough() {
